@@ -887,6 +887,80 @@ def q_double_charge(o, tier):
             'witness': {'traces': len(tr), 'sample': [list(e) for e in tr[0]]}, 'functions': sorted(short(x) for x in sk.functions_seen)}
 
 
+def q_retry_progress(o, tier):
+    """C13: (no_spin) inside Retrier::run every way a re-sent appointment can be answered either makes progress (the
+    locator leaves the in-memory pending set) or ends the run (the back-off strategy of `retry_notify` then decides when to
+    try again): the `while has_pending` loop cannot re-send immediately without progress.
+    (single_loop) RetryManager::manage_retry starts a retrier only on the true edge of Retrier::should_start (stopped and
+    has pending data), and Retrier::start marks it Running *before* spawning the task, so the next tick cannot start a
+    second loop for the same tower."""
+    funcs, idx, t_mir, err = load_mir('watchtower-plugin', 'lib')
+    if funcs is None:
+        return {'verdict': 'inconclusive', 'reason': 'MIR dump failed'}
+    part = o.get('part')
+    failed = []
+    if part == 'no_spin':
+        name = [n for n in funcs if re.match(r'^retrier::<impl at .*?>::run::\{closure#0\}$', n)]
+        if len(name) != 1:
+            return {'verdict': 'inconclusive', 'reason': 'Retrier::run not found'}
+        f = funcs[name[0]]
+        poll = [b for b in f.blocks.values() if b.term['kind'] == 'call' and re.search(r'http::add_appointment\(\)\} as (?:std::future::)?Future>::poll', b.term['callee'])]
+        if len(poll) != 1:
+            return {'verdict': 'inconclusive', 'reason': 'anchor not found'}
+        rows = enum_paths(f, poll[0].term['next'], r'IntoIter<Locator> as Iterator>::next')
+        if rows is None:
+            return {'verdict': 'inconclusive', 'reason': 'path explosion'}
+        rows = [r for r in rows if ('stmt', 'pending') not in r and r[-1][0] == 'stop']     # the loop goes on
+        progress = lambda r: any(e[0] == 'call' and re.search(r'HashSet<Locator>::remove|HashSet::remove', e[1]) for e in r)
+        if not rows or not any(progress(r) for r in rows):
+            return {'verdict': 'inconclusive', 'reason': 'vacuous: %d continuing paths' % len(rows)}
+        v, i, dt, out = _exists(rows, lambda r: not progress(r), 'spin')
+        if v == 'inconclusive':
+            return {'verdict': 'inconclusive', 'reason': out[:200]}
+        if v == 'sat':
+            failed.append({'description': 'the retry loop can go on to re-send without back-off although the answered appointment made no progress',
+                           'function': 'Retrier::run', 'schedule': [list(e) for e in rows[i] if e[0] in ('call', 'branch')][-8:]})
+        wit = {'continuing_paths': len(rows)}
+    else:
+        name = [n for n in funcs if re.match(r'^retrier::<impl at .*?>::manage_retry::\{closure#0\}$', n)]
+        st = [n for n in funcs if re.match(r'^retrier::<impl at .*?>::start$', n)]
+        if len(name) != 1 or len(st) != 1:
+            return {'verdict': 'inconclusive', 'reason': 'manage_retry / start not found (%d, %d)' % (len(name), len(st))}
+        f = funcs[name[0]]
+        rows = enum_paths(f, 'bb0', r'RetryManager::start_retrying$')
+        if rows is None:
+            return {'verdict': 'inconclusive', 'reason': 'path explosion'}
+        rows = [r for r in rows if r[-1][0] == 'stop']
+        if not rows:
+            return {'verdict': 'inconclusive', 'reason': 'vacuous: start_retrying not reachable'}
+
+        def guarded(r):
+            # the last should_start branch before the stop must be the true edge
+            br = [e for e in r if e[0] == 'branch' and e[1] == 'Retrier::should_start']
+            return bool(br) and br[-1][2] != '0'
+        v, i, dt, out = _exists(rows, lambda r: not guarded(r), 'start')
+        if v == 'inconclusive':
+            return {'verdict': 'inconclusive', 'reason': out[:200]}
+        if v == 'sat':
+            failed.append({'description': 'a retrier can be started without should_start() (stopped and pending data) having returned true',
+                           'function': 'RetryManager::manage_retry', 'schedule': [list(e) for e in rows[i] if e[0] in ('call', 'branch')][-8:]})
+        g = funcs[st[0]]
+        rows2 = enum_paths(g, 'bb0', r'tokio::spawn|tokio::task::spawn')
+        if rows2 is None or not [r for r in rows2 if r[-1][0] == 'stop']:
+            return {'verdict': 'inconclusive', 'reason': 'vacuous: spawn not found in Retrier::start'}
+        rows2 = [r for r in rows2 if r[-1][0] == 'stop']
+        v2, i2, dt2, out2 = _exists(rows2, lambda r: not any(e == ('call', 'Retrier::set_status') for e in r), 'running')
+        if v2 == 'inconclusive':
+            return {'verdict': 'inconclusive', 'reason': out2[:200]}
+        if v2 == 'sat':
+            failed.append({'description': 'Retrier::start can spawn the retry task before the retrier is marked Running',
+                           'function': 'Retrier::start', 'schedule': [list(e) for e in rows2[i2] if e[0] == 'call'][-8:]})
+        dt += dt2
+        wit = {'paths_to_start_retrying': len(rows), 'paths_to_spawn': len(rows2)}
+    return {'verdict': 'fails' if failed else 'holds', 'failed': failed, 'queries': 2, 'solver_s': dt, 'witness': wit,
+            'functions': ['watchtower_plugin::retrier']}
+
+
 QUERIES = {
     'lock_order': q_lock_order,
     'api_guard': q_api_guard,
@@ -898,6 +972,7 @@ QUERIES = {
     'plugin_register_verify': q_plugin_register_verify,
     'plugin_send_appointment': q_plugin_send_appointment,
     'retrier_run': q_retrier_run,
+    'retry_progress': q_retry_progress,
     'responder_block_order': q_responder_block_order,
 }
 
